@@ -1,9 +1,8 @@
 ------------------------------- MODULE MC_Pdk -------------------------------
-(* Every history of up to Depth registry operations over three PDK modules; emitted for replay in fresh processes. *)
+(* Every history of Depth registry operations over the PDK modules Pdks; emitted for replay in fresh processes. *)
 EXTENDS Pdk, Json
-CONSTANT Depth
+CONSTANTS Depth, Pdks
 VARIABLES s, hist
-Pdks == {"pa", "pb", "pc"}
 O(op, how, n) == [op |-> op, how |-> how, n |-> n]
 Ops == {O("register", "", p) : p \in Pdks} \cup {O("set_default", h, p) : h \in {"name", "module"}, p \in Pdks}
        \cup {O("compile", "none", "")} \cup {O("compile", h, p) : h \in {"name", "module"}, p \in Pdks}
